@@ -41,7 +41,7 @@ type FuncContract struct {
 	LoopInv   map[int][]Clause
 	LoopDec   map[int]*Clause
 	LoopMod   map[int][]*SX // extra havoc targets inside loop K
-	Ghost     []Clause      // "at call X#K ..." reserved
+	AtCall    map[string][]Clause // callee short name -> assertions checked at every call to it
 	File      string
 	Line      int
 	Used      bool
@@ -108,7 +108,7 @@ func newContracts() *Contracts {
 
 var clauseKW = map[string]bool{"func": true, "spec": true, "lemma": true, "ghostheap": true, "props": true, "trusted": true, "inline": true,
 	"pure": true, "may_panic": true, "requires": true, "ensures": true, "assume": true, "modifies": true, "loop": true, "functype": true,
-	"iface": true, "input_path": true, "no_safety": true, "package": true, "mode": true, "sweep": true}
+	"iface": true, "input_path": true, "no_safety": true, "package": true, "mode": true, "sweep": true, "at": true}
 
 var labelRe = regexp.MustCompile(`^\[([A-Za-z0-9_.$#-]+)\]\s*`)
 
@@ -324,6 +324,21 @@ func (cs *Contracts) loadContractFile(path string, pkgPath string) error {
 					}
 					cur.Modifies = append(cur.Modifies, e)
 				}
+			case "at":
+				// at call <callee> assert [label] expr
+				fs := strings.Fields(rest)
+				if len(fs) < 4 || fs[0] != "call" || fs[2] != "assert" {
+					return fail("at call <callee> assert [label] expr")
+				}
+				idx := strings.Index(rest, " assert ")
+				c, err := mkClause("assert", strings.TrimSpace(rest[idx+len(" assert "):]), 0)
+				if err != nil {
+					return err
+				}
+				if cur.AtCall == nil {
+					cur.AtCall = map[string][]Clause{}
+				}
+				cur.AtCall[fs[1]] = append(cur.AtCall[fs[1]], c)
 			case "loop":
 				fs := strings.Fields(rest)
 				if len(fs) < 3 {
